@@ -166,6 +166,19 @@ def z3_sat(rows, integer=True, strict=None):
     return True if res == z3.sat else False if res == z3.unsat else None
 
 
+_reported = {}
+
+
+def report(ctx, kind, key, what, replay, cap=4):
+    """ctx.violation with at most `cap` replay files per kind of failure (the rest are only counted)."""
+    ctx.count("violations:" + kind)
+    n = _reported.get(kind, 0)
+    if n >= cap:
+        return
+    if ctx.violation(kind + ":" + key, what, replay) == "new":
+        _reported[kind] = n + 1
+
+
 # ------------------------------------------------------------------ omega: implementation side
 def deriv_sexp(d):
     n = type(d).__name__
@@ -277,7 +290,7 @@ def check_omega(ctx, omega, systems, label, use_z3=True, limit=20):
                 continue          # termination is not part of C16
             res = res2
         if res[0] in ("sat-nonint", "contr-bad-deriv", "other", "input-modified"):
-            ctx.violation("omega:malformed-answer:" + key, "solve_matrix(%s) answered %s" % (rows, (res,)), {"kind": "omega", "rows": rows, "result": res})
+            report(ctx, "omega:malformed-answer", key, "solve_matrix(%s) answered %s" % (rows, (res,)), {"kind": "omega", "rows": rows, "result": res})
             continue
         if res[0] == "sat":
             d = dict(res[1])
@@ -286,7 +299,7 @@ def check_omega(ctx, omega, systems, label, use_z3=True, limit=20):
             viol = [r for r in rows if eval_row(r, vals) < 0]
             lean_ok = None if cert_line is None else (cert_line.strip() == "T")
             if bad_keys or viol or lean_ok is False:
-                ctx.violation("omega:bad-witness:" + key,
+                report(ctx, "omega:bad-witness", key,
                               "solve_matrix(%s) = SAT %s but row %s evaluates below 0 (Lean checkWitness: %s)" % (rows, d, (viol or ["-"])[0], lean_ok),
                               {"kind": "omega", "rows": rows, "result": res})
             elif lean_ok is None:
@@ -300,11 +313,11 @@ def check_omega(ctx, omega, systems, label, use_z3=True, limit=20):
                 c = sexp.loads(cert_line)
                 dv = (c[0] == "T")
             if pt is not None or z is True:
-                ctx.violation("omega:wrong-contradiction:" + key,
+                report(ctx, "omega:wrong-contradiction", key,
                               "solve_matrix(%s) = UNSAT but %s is an integer solution" % (rows, list(pt) if pt is not None else "Z3 finds one"),
                               {"kind": "omega", "rows": rows, "result": res, "solution": list(pt) if pt is not None else None})
             elif dv is False:
-                ctx.violation("omega:bad-derivation:" + key,
+                report(ctx, "omega:bad-derivation", key,
                               "solve_matrix(%s) = UNSAT with a derivation the verified checker rejects: %s" % (rows, sexp.dumps(res[1])),
                               {"kind": "omega", "rows": rows, "result": res})
             ctx.count("oracle:contradiction-checked")
@@ -324,6 +337,408 @@ def check_omega(ctx, omega, systems, label, use_z3=True, limit=20):
                 # model agrees with the code but its own answer fails the verified checker
                 ctx.broken("model-certificate:c16:omega", "rows=%s model answer %s fails its checker" % (rows, (m,)))
     return out is not None
+
+
+
+# ------------------------------------------------------------------ simplex: implementation side
+class BudgetDeque:
+    """Stand-in for collections.deque inside prover.simplex.branch_and_bound: after `budget` node
+    expansions the queue reports itself empty, so a run that would not terminate (unbounded
+    relaxations) ends as 'gave up' instead of hanging; the bare `except:` in that loop would
+    swallow a timeout exception."""
+    budget = 400
+
+    def __init__(self, items=()):
+        from collections import deque
+        self.d = deque(items)
+        self.pops = 0
+        self.exhausted = False
+        BudgetDeque.last = self
+
+    def __len__(self):
+        if self.pops >= self.budget:
+            self.exhausted = len(self.d) > 0
+            return 0
+        return len(self.d)
+
+    def popleft(self):
+        self.pops += 1
+        return self.d.popleft()
+
+    def appendleft(self, x):
+        self.d.appendleft(x)
+
+
+def build_ineqs(mod, rows, enc, strict=None):
+    """Row r (sum c_i x_i + c0 >= 0, or > 0 when strict) as GreaterEq(jars(c), -c0) or, equivalently,
+    LessEq(jars(-c), c0); zero coefficients are left out.  For simplex_strict the bounds are Pairs."""
+    ineqs = []
+    for k, r in enumerate(rows):
+        st = bool(strict and strict[k])
+        if enc[k]:
+            jars = [mod.Jar(c, "x%d" % i) for i, c in enumerate(r[:-1]) if c != 0]
+            b = -r[-1]
+            ineqs.append(mod.GreaterEq(jars, mod.Pair(b, 1 if st else 0) if strict is not None else b))
+        else:
+            jars = [mod.Jar(-c, "x%d" % i) for i, c in enumerate(r[:-1]) if c != 0]
+            b = r[-1]
+            ineqs.append(mod.LessEq(jars, mod.Pair(b, -1 if st else 0) if strict is not None else b))
+    return ineqs
+
+
+def find_atom_row(s, mod, is_upper, var, value):
+    """index of an input inequality that asserted `var <= value` / `var >= value`."""
+    for k, a in enumerate(s.atom):
+        if a.var_name == var and isinstance(a, mod.leq_atom if is_upper else mod.geq_atom) and a[1] == value:
+            return k
+    return None
+
+
+def farkas_from_explanation(s, mod, nrows):
+    """Multipliers (one per input row) from Simplex.explaination(wrong_var): the bounds of the
+    non-basic variables in the row of the conflicting basic variable, weighted by |a_ij|, plus
+    the violated bound itself.  None if some bound is not an asserted atom."""
+    xi = s.wrong_var
+    expl = s.explaination(xi)
+    lam = [Fraction(0)] * nrows
+    coeffs = {}
+    for jar in s.equality[xi]:
+        coeffs[jar.var] = coeffs.get(jar.var, 0) + Fraction(jar.coeff)
+    for a in expl[:-1]:
+        k = find_atom_row(s, mod, isinstance(a, mod.leq_atom), a.var_name, a[1])
+        if k is None:
+            return None
+        lam[k] += abs(coeffs.get(a.var_name, 0))
+    a = expl[-1]
+    k = find_atom_row(s, mod, isinstance(a, mod.leq_atom), a.var_name, a[1])
+    if k is None:
+        return None
+    lam[k] += 1
+    den = 1
+    for x in lam:
+        den = den * x.denominator // math.gcd(den, x.denominator)
+    return [int(x * den) for x in lam]
+
+
+def run_simplex(mod, rows, enc):
+    """(verdict, payload): ('sat', {var: Fraction}), ('unsat', multipliers or None), ('raise', name), ('timeout',)"""
+    s = mod.Simplex()
+    last = {}
+    try:
+        s.add_ineqs(*build_ineqs(mod, rows, enc))
+        orig_up, orig_lo = s.assert_upper, s.assert_lower
+
+        def up(x, c):
+            last["a"] = (True, x, c)
+            return orig_up(x, c)
+
+        def lo(x, c):
+            last["a"] = (False, x, c)
+            return orig_lo(x, c)
+        s.assert_upper, s.assert_lower = up, lo
+        with time_limit(20):
+            s.handle_assertion()
+    except Timeout:
+        return ("timeout",), s
+    except mod.UNSATException:
+        try:
+            return ("unsat", farkas_from_explanation(s, mod, len(rows))), s
+        except Exception as e:  # noqa
+            return ("unsat", None, "explanation raised %s" % type(e).__name__), s
+    except (mod.AssertUpperException, mod.AssertLowerException):
+        is_up, x, c = last["a"]
+        other = s.bound[x][0] if is_up else s.bound[x][1]
+        k1 = find_atom_row(s, mod, is_up, x, c)
+        k2 = find_atom_row(s, mod, not is_up, x, other)
+        if k1 is None or k2 is None:
+            return ("unsat", None, "bound conflict without atoms"), s
+        lam = [0] * len(rows)
+        lam[k1] += 1
+        lam[k2] += 1
+        return ("unsat", lam), s
+    except Exception as e:  # noqa
+        return ("raise", type(e).__name__), s
+    val = {}
+    for v, x in s.mapping.items():
+        if v.startswith("x"):
+            val[int(v[1:])] = Fraction(x)
+    return ("sat", val), s
+
+
+def qvec(val, nv):
+    """rational assignment as integers over a common denominator"""
+    xs = [Fraction(val.get(i, 0)) for i in range(nv)]
+    den = 1
+    for x in xs:
+        den = den * x.denominator // math.gcd(den, x.denominator)
+    return [int(x * den) for x in xs], den
+
+
+def check_simplex(ctx, simplex, systems, label):
+    rng = ctx.rng("simplex-enc-" + label)
+    runs = []
+    lines = []
+    for rows, shape in systems:
+        enc = [rng.random() < 0.5 for _ in rows]
+        res, s = run_simplex(simplex, rows, enc)
+        runs.append((rows, enc, res))
+        nv = len(rows[0]) - 1
+        if res[0] == "sat":
+            p, q = qvec(res[1], nv)
+            lines.append(sexp.dumps(["witnessq", rows, p, q]))
+        elif res[0] == "unsat" and res[1] is not None:
+            lines.append(sexp.dumps(["farkas", rows, res[1]]))
+    out = ctx.lean_driver(EXE, lines) if lines else []
+    pos = 0
+    for rows, enc, res in runs:
+        nv = len(rows[0]) - 1
+        key = rows_key(rows) + "/" + "".join("g" if e else "l" for e in enc)
+        ctx.case(("simplex", key), nontrivial=len(rows) >= 2)
+        ctx.count("simplex:%s:%s" % (label, res[0] if res[0] != "raise" else "raise:" + res[1]))
+        rp = {"kind": "simplex", "rows": rows, "enc": enc, "result": repr(res)}
+        if res[0] == "sat":
+            lean_ok = None
+            if out is not None:
+                lean_ok = out[pos].strip() == "T"
+                pos += 1
+            xs = [res[1].get(i, Fraction(0)) for i in range(nv)]
+            viol = [r for r in rows if sum(c * x for c, x in zip(r[:-1], xs)) + r[-1] < 0]
+            if viol or lean_ok is False:
+                report(ctx, "simplex:bad-witness", key, "Simplex on %s (encoding %s) is satisfiable with %s, but row %s is violated (Lean checkWitnessQ: %s)"
+                       % (rows, key.split("/")[1], {k: str(v) for k, v in res[1].items()}, (viol or ["-"])[0], lean_ok), rp)
+            ctx.count("oracle:simplex-witness-checked")
+        elif res[0] == "unsat":
+            lean_ok = None
+            if res[1] is not None and out is not None:
+                lean_ok = out[pos].strip() == "T"
+                pos += 1
+            if lean_ok is True:
+                ctx.count("oracle:farkas-checked")
+            else:
+                z = z3_sat(rows, integer=False)
+                ctx.count("oracle:z3-lra")
+                if z is True:
+                    report(ctx, "simplex:wrong-unsat", key, "Simplex on %s (encoding %s) answers unsatisfiable but Z3 (LRA) finds a solution" % (rows, key.split("/")[1]), rp)
+                else:
+                    report(ctx, "simplex:bad-explanation", key, "Simplex on %s (encoding %s) answers unsatisfiable; its explanation does not yield a Farkas certificate (%s)"
+                           % (rows, key.split("/")[1], res[1:]), rp)
+        elif res[0] == "timeout":
+            ctx.count("simplex:timeout")
+
+
+def run_bb(simplex, rows, enc):
+    s = simplex.Simplex()
+    orig = simplex.deque
+    simplex.deque = BudgetDeque
+    try:
+        s.add_ineqs(*build_ineqs(simplex, rows, enc))
+        r = simplex.branch_and_bound(s, [], [])
+    except Exception as e:  # noqa
+        return ("raise", type(e).__name__)
+    finally:
+        simplex.deque = orig
+    if BudgetDeque.last.exhausted:
+        return ("gave-up",)
+    if isinstance(r, dict):
+        return ("sat", {int(v[1:]): Fraction(x) for v, x in r.items() if v.startswith("x")})
+    if isinstance(r, simplex.IntSimplexTree):
+        return ("unsat",)
+    return ("other", repr(r))
+
+
+def check_bb(ctx, simplex, systems, label):
+    rng = ctx.rng("bb-enc-" + label)
+    runs = []
+    lines = []
+    for rows, shape in systems:
+        enc = [rng.random() < 0.5 for _ in rows]
+        res = run_bb(simplex, rows, enc)
+        runs.append((rows, enc, res))
+        if res[0] == "sat":
+            nv = len(rows[0]) - 1
+            ok = all(x.denominator == 1 for x in res[1].values())
+            lines.append(sexp.dumps(["witness", rows, [int(res[1].get(i, 0)) for i in range(nv)] if ok else []]))
+    out = ctx.lean_driver(EXE, lines) if lines else []
+    pos = 0
+    for rows, enc, res in runs:
+        nv = len(rows[0]) - 1
+        key = rows_key(rows) + "/" + "".join("g" if e else "l" for e in enc)
+        ctx.case(("bb", key), nontrivial=len(rows) >= 2)
+        ctx.count("bb:%s:%s" % (label, res[0] if res[0] != "raise" else "raise:" + res[1]))
+        rp = {"kind": "bb", "rows": rows, "enc": enc, "result": repr(res)}
+        if res[0] == "sat":
+            lean_ok = None
+            if out is not None:
+                lean_ok = out[pos].strip() == "T"
+                pos += 1
+            xs = [res[1].get(i, Fraction(0)) for i in range(nv)]
+            nonint = [x for x in xs if x.denominator != 1]
+            viol = [r for r in rows if sum(c * x for c, x in zip(r[:-1], xs)) + r[-1] < 0]
+            if nonint or viol or lean_ok is False:
+                report(ctx, "bb:bad-witness", key, "branch_and_bound on %s returns %s: %s" % (rows, {k: str(v) for k, v in res[1].items()},
+                       "not integral" if nonint else "row %s violated" % (viol or ["-"])[0]), rp)
+            ctx.count("oracle:bb-witness-checked")
+        elif res[0] == "unsat":
+            pt = brute_point(rows) if nv <= 4 else brute_point(rows, 3)
+            z = z3_sat(rows) if pt is None else True
+            ctx.count("oracle:z3-lia")
+            if z is True:
+                report(ctx, "bb:wrong-unsat", key, "branch_and_bound on %s (encoding %s) finds no integer solution but %s is one"
+                       % (rows, key.split("/")[1], list(pt) if pt is not None else "Z3 finds one"), rp)
+
+
+def run_strict(strict_mod, rows, enc, strict):
+    s = strict_mod.Simplex()
+    try:
+        s.add_ineqs(*build_ineqs(strict_mod, rows, enc, strict))
+        with time_limit(20):
+            s.handle_assertion()
+    except Timeout:
+        return ("timeout",)
+    except (strict_mod.UNSATException, strict_mod.AssertUpperException, strict_mod.AssertLowerException):
+        return ("unsat",)
+    except Exception as e:  # noqa
+        return ("raise", type(e).__name__)
+    return ("sat", {int(v[1:]): (Fraction(p.x), Fraction(p.y)) for v, p in s.mapping.items() if v.startswith("x")})
+
+
+def check_strict(ctx, strict_mod, systems, label):
+    rng = ctx.rng("strict-" + label)
+    for rows, shape in systems:
+        nv = len(rows[0]) - 1
+        enc = [rng.random() < 0.5 for _ in rows]
+        strict = [rng.random() < 0.4 for _ in rows]
+        res = run_strict(strict_mod, rows, enc, strict)
+        key = rows_key(rows) + "/" + "".join(("G" if st else "g") if e else ("L" if st else "l") for e, st in zip(enc, strict))
+        ctx.case(("strict", key), nontrivial=len(rows) >= 2 and any(strict))
+        ctx.count("strict:%s:%s" % (label, res[0] if res[0] != "raise" else "raise:" + res[1]))
+        rp = {"kind": "strict", "rows": rows, "enc": enc, "strict": strict, "result": repr(res)}
+        if res[0] == "sat":
+            # value of row k is P + Q*delta; infinitesimal delta: need (P, Q) >= (0, 0) lexicographically, > for strict rows
+            bad = None
+            delta = Fraction(1)
+            for r, st in zip(rows, strict):
+                P = sum(c * res[1].get(i, (0, 0))[0] for i, c in enumerate(r[:-1])) + r[-1]
+                Q = sum(c * res[1].get(i, (0, 0))[1] for i, c in enumerate(r[:-1]))
+                if P < 0 or (P == 0 and (Q < 0 or (st and Q == 0))):
+                    bad = r
+                    break
+                if Q < 0:
+                    delta = min(delta, P / (-Q) / 2)
+            if bad is None:
+                xs = [res[1].get(i, (Fraction(0), Fraction(0))) for i in range(nv)]
+                xs = [a + b * delta for a, b in xs]
+                for r, st in zip(rows, strict):
+                    v = sum(c * x for c, x in zip(r[:-1], xs)) + r[-1]
+                    if v < 0 or (st and v == 0):
+                        bad = r
+            if bad is not None:
+                report(ctx, "strict:bad-witness", key, "simplex_strict on %s (strict rows %s) is satisfiable with %s but row %s fails for every small delta > 0"
+                       % (rows, strict, {k: (str(a), str(b)) for k, (a, b) in res[1].items()}, bad), rp)
+            ctx.count("oracle:strict-witness-checked")
+        elif res[0] == "unsat":
+            z = z3_sat(rows, integer=False, strict=strict)
+            ctx.count("oracle:z3-lra")
+            if z is True:
+                report(ctx, "strict:wrong-unsat", key, "simplex_strict on %s (strict rows %s) answers unsatisfiable but Z3 (LRA) finds a solution" % (rows, strict), rp)
+
+
+# ------------------------------------------------------------------ OmegaHOL proof terms
+def row_term(term, xs, r):
+    """0 <= c1 * x1 + ... + c0 in omega normal form (zero summands and a zero constant left out)."""
+    s = [term.Int(c) * v for c, v in zip(r[:-1], xs) if c != 0]
+    if r[-1] != 0 or not s:
+        s.append(term.Int(r[-1]))
+    return term.less_eq(term.IntType)(term.Int(0), sum(s[1:], s[0]))
+
+
+def term_row(t, xs):
+    """inverse of row_term, reading the term structure directly; None if t is not of that form."""
+    if not (t.is_less_eq() and t.arg1.is_number() and t.arg1.dest_number() == 0):
+        return None
+    row = [0] * (len(xs) + 1)
+    e = t.arg
+    parts = []
+    while e.is_plus():
+        parts.append(e.arg)
+        e = e.arg1
+    parts.append(e)
+    for p in parts:
+        if p.is_number():
+            row[-1] += p.dest_number()
+        elif p.is_times() and p.arg1.is_number() and p.arg in xs:
+            row[xs.index(p.arg)] += p.arg1.dest_number()
+        elif p in xs:
+            row[xs.index(p)] += 1
+        else:
+            return None
+    return row
+
+
+def check_omega_hol(ctx, systems, label):
+    from kernel import term, theory, report as kreport
+    from kernel.proofterm import ProofTerm
+    from logic import context
+    from prover import omega
+    context.set_context('int')
+    allx = term.IntVars('x0 x1 x2 x3 x4')
+    for rows, shape in systems:
+        nv = len(rows[0]) - 1
+        xs = list(allx[:nv])
+        key = rows_key(rows)
+        given = [row_term(term, xs, r) for r in rows]
+        ctx.case(("omegahol", key), nontrivial=len(rows) >= 2)
+        rp = {"kind": "omegahol", "rows": rows}
+        try:
+            with time_limit(120):
+                h = omega.OmegaHOL(list(given))
+                res = h.solve()
+        except Timeout:
+            ctx.count("omegahol:%s:timeout" % label)
+            continue
+        except Exception as e:  # noqa
+            ctx.count("omegahol:%s:raise:%s" % (label, type(e).__name__))
+            # a contradiction was found but no proof could be built
+            st = run_omega(omega, rows)
+            if st[0] == "contr":
+                report(ctx, "omegahol:no-proof", key, "OmegaHOL.solve() raises %s on the contradictory system %s instead of returning a proof" % (type(e).__name__, rows), rp)
+            continue
+        if isinstance(res, ProofTerm):
+            ctx.count("omegahol:%s:proof" % label)
+            try:
+                with time_limit(300):
+                    rpt = kreport.ProofReport()
+                    th = theory.check_proof(res.export(), rpt)
+            except Timeout:
+                ctx.count("omegahol:check-timeout")
+                continue
+            except Exception as e:  # noqa
+                report(ctx, "omegahol:proof-rejected", key, "proof term of OmegaHOL.solve() for %s is rejected by check_proof: %s %s" % (rows, type(e).__name__, str(e)[:200]), rp)
+                continue
+            if len(rpt.gaps) > 0:
+                report(ctx, "omegahol:proof-has-gaps", key, "proof of OmegaHOL.solve() for %s has gaps" % rows, rp)
+            if th.prop != term.false:
+                report(ctx, "omegahol:not-false", key, "OmegaHOL.solve() for %s concludes %s instead of false" % (rows, th.prop), rp)
+            hyp_rows = [term_row(h, xs) for h in th.hyps]
+            extra = [str(h) for h, hr in zip(th.hyps, hyp_rows) if hr is None or hr not in rows]
+            literal = [str(h) for h in th.hyps if h not in given]
+            if extra or literal:
+                report(ctx, "omegahol:foreign-hypothesis", key, "proof of OmegaHOL.solve() for %s uses hypotheses that are not among the given constraints: %s" % (rows, extra or literal), rp)
+            # the verdict itself
+            pt = brute_point(rows) if nv <= 4 else brute_point(rows, 3)
+            if pt is not None:
+                report(ctx, "omegahol:wrong-contradiction", key, "OmegaHOL.solve() proves false from %s but %s satisfies every constraint" % (rows, list(pt)), rp)
+        elif isinstance(res, dict):
+            ctx.count("omegahol:%s:sat" % label)
+            # OmegaHOL numbers the variables that occur (plus pseudo-variables for constants) in term order
+            vals = [0] * nv
+            for i, val in res.items():
+                if 0 <= i < len(h.vars) and h.vars[i] in xs:
+                    vals[xs.index(h.vars[i])] = val
+            if any(eval_row(r, vals) < 0 for r in rows):
+                report(ctx, "omegahol:bad-witness", key, "OmegaHOL.solve() for %s returns %s which violates a constraint" % (rows, res), rp)
+        else:
+            ctx.count("omegahol:%s:noconcl" % label)
 
 
 # ------------------------------------------------------------------ main
@@ -355,6 +770,32 @@ def run(ctx):
         have_model = check_omega(ctx, omega, systems[i:i + 10000], "random") and have_model
     if not have_model:
         ctx.broken("correspondence:c16:driver", "model driver unavailable")
+    if ctx.tier == "thorough":
+        batch = []
+        for rows in gen_exhaustive(2, 3, 2):
+            batch.append((rows, "exhaustive"))
+            if len(batch) >= 20000:
+                check_omega(ctx, omega, batch, "exhaustive", use_z3=False)
+                batch = []
+        if batch:
+            check_omega(ctx, omega, batch, "exhaustive", use_z3=False)
+        ctx.coverage["exhaustive"] = False
+        ctx.coverage["exhaustive_subspace"] = "solve_matrix on every multiset of <=3 rows over 2 variables with entries in -2..2"
+    # 4. simplex / branch and bound / strict simplex
+    from prover import simplex, simplex_strict
+    rng = ctx.rng("simplex")
+    sys2 = [gen_system(rng) for _ in range(ctx.scale(1500, 20000))]
+    check_simplex(ctx, simplex, sys2, "random")
+    rng = ctx.rng("bb")
+    sys3 = [gen_system(rng) for _ in range(ctx.scale(600, 8000))]
+    check_bb(ctx, simplex, sys3, "random")
+    rng = ctx.rng("strict")
+    sys4 = [gen_system(rng) for _ in range(ctx.scale(800, 10000))]
+    check_strict(ctx, simplex_strict, sys4, "random")
+    # 5. proof terms
+    rng = ctx.rng("omegahol")
+    sys5 = [gen_system(rng) for _ in range(ctx.scale(60, 900))]
+    check_omega_hol(ctx, sys5, "random")
 
 
 def load_corpus(ctx):
@@ -368,8 +809,21 @@ def load_corpus(ctx):
 def replay(ctx, rp):
     from prover import omega
     r = rp["replay"]
+    rows = [[int(c) for c in row] for row in r["rows"]]
     if r.get("kind") == "omega":
-        check_omega(ctx, omega, [([[int(c) for c in row] for row in r["rows"]], "replay")], "replay", limit=90)
+        check_omega(ctx, omega, [(rows, "replay")], "replay", limit=90)
+    elif r.get("kind") in ("simplex", "bb", "strict"):
+        from prover import simplex, simplex_strict
+        # the recorded encoding is re-used by re-seeding is not possible; try both encodings of every row
+        for _ in range(1 if len(rows) > 6 else 8):
+            if r["kind"] == "simplex":
+                check_simplex(ctx, simplex, [(rows, "replay")], "replay%d" % _)
+            elif r["kind"] == "bb":
+                check_bb(ctx, simplex, [(rows, "replay")], "replay%d" % _)
+            else:
+                check_strict(ctx, simplex_strict, [(rows, "replay")], "replay%d" % _)
+    elif r.get("kind") == "omegahol":
+        check_omega_hol(ctx, [(rows, "replay")], "replay")
     for v in ctx.violations:
         print("still fails:", v[1])
     return bool(ctx.violations)
